@@ -53,7 +53,8 @@ Print Assumptions C10_switch_blocks.
    acting identity, and the flags/caller at the EVM's four call sites *)
 Theorem C10_source_shape :
   (staking_run_guards = expected_guards /\ crosschain_run_guards = expected_guards /\
-   staking_errors_packed = true /\ crosschain_errors_packed = true) /\
+   staking_errors_packed = true /\ crosschain_errors_packed = true /\
+   staking_guards_flat = true /\ crosschain_guards_flat = true) /\
   forallb (fun m => pm_readonly m ||
                     (existsb (String.eqb "caller") (pm_identities m) &&
                      forallb (str_suffix "Event") (pm_origin_sinks m))) methods = true /\
